@@ -64,6 +64,7 @@ fn scalar(rng: &mut Rng, depth: u32) -> String {
         16 => { let f = *rng.pick(&["log", "log10", "log2"]); format!("{f}({a})") }
         17 => { let f = *rng.pick(&["sin", "cos", "sign", "floor", "ceil", "round"]); format!("{f}({a})") }
         18 => format!("least({a}, {})", scalar(rng, depth - 1)),
+        19 if rng.chance(1, 3) => format!("CAST(s AS {})", *rng.pick(&["INTEGER", "FLOAT"])),   // a text column whose values are not numerals
         19 => format!("trunc({a})"),
         0 => format!("({a} + {})", scalar(rng, depth - 1)), 1 => format!("({a} - {})", scalar(rng, depth - 1)), 2 => format!("({a} * {})", scalar(rng, depth - 1)),
         3 | 4 => format!("({a} / {})", scalar(rng, depth - 1)), 5 => format!("abs({a})"), 6 => format!("exp({a})"), 7 => format!("ln({a})"), 8 => format!("sqrt({a})"),
@@ -80,7 +81,7 @@ pub fn gen(rng: &mut Rng, _k: usize, _tier: &str) -> J {
                match rng.below(5) { 0 => format!("SELECT {a} AS r FROM x UNION SELECT {b} AS r FROM x"), 1 => format!("SELECT {a} AS r FROM x UNION ALL SELECT {b} AS r FROM x"),
                                     2 => format!("SELECT coalesce({a}, {}) AS r FROM x", *rng.pick(&["0", "'x'", "1.5", b])), 3 => format!("SELECT CASE WHEN m > 0 THEN {a} ELSE {b} END AS r FROM x"),
                                     _ => format!("SELECT m AS r FROM x WHERE coalesce({a}, {b}) = {b}") } }
-        8 => { let o = *rng.pick(&["0", "999", "1000", "1001", "5000", "1000000000000000000", "9223372036854775807"]); let l = *rng.pick(&["0", "1", "1000", "1001", "9223372036854775807"]);
+        8 => { let o = *rng.pick(&["0", "999", "1000", "1001", "5000", "1000000000000000000", "9223372036854775807", "18446744073709551615"]); let l = *rng.pick(&["0", "1", "1000", "1001", "9223372036854775807", "18446744073709551615"]);
                match rng.below(3) { 0 => format!("SELECT m AS r FROM x ORDER BY r LIMIT {l} OFFSET {o}"), 1 => format!("SELECT count(*) AS n FROM (SELECT m AS r FROM x ORDER BY r LIMIT {l} OFFSET {o}) AS q"), _ => format!("SELECT m AS r FROM x ORDER BY r OFFSET {o}") } }
         0 | 1 => format!("SELECT {} AS r FROM x", scalar(rng, d)),
         2 => format!("SELECT {} AS r FROM x WHERE {} > {}", scalar(rng, d), scalar(rng, 1), scalar(rng, 1)),
@@ -108,7 +109,10 @@ pub fn eval(case: &J) -> Outcome {
     let rels = world3();
     let rel = match guarded(|| { let q = parse(&sql).map_err(|e| e.to_string())?; Relation::try_from(QueryWithRelations::new(&q, &rels)).map_err(|e| e.to_string()) }) {
         Ok(Ok(r)) => r, Ok(Err(_)) => { out.tag("compile=err"); out.tag("trivial"); return out; }
-        Err((loc, msg)) => { out.tag("compile=panic"); out.fail(&format!("C18/total/compile-panic/{}/{sh}", site(&loc, &msg)), format!("{sql}: {msg} ({loc})")); return out; } };
+        Err((loc, msg)) => { out.tag("compile=panic");
+            // the cast of a text column whose declared values are not numerals: named by its cause, whatever the rest of the query looks like
+            let sh = if msg.contains("ParseIntError") || msg.contains("ParseFloatError") { "text-cast".to_string() } else { sh.clone() };
+            out.fail(&format!("C18/total/compile-panic/{}/{sh}", site(&loc, &msg)), format!("{sql}: {msg} ({loc})")); return out; } };
     out.tag("compile=ok");
     if let Err((loc, msg)) = guarded(|| { let _ = rel.schema().to_string(); let _ = rel.size().to_string(); let _ = rel.data_type().to_string(); }) { out.fail(&format!("C18/total/schema-panic/{}/{sh}", site(&loc, &msg)), format!("{sql}: {msg}")); }
     if let Err((loc, msg)) = guarded(|| { let _ = ast::Query::from(&rel).to_string(); let _ = ast::Query::from(RelationWithTranslator(&rel, MsSqlTranslator)).to_string(); }) { out.fail(&format!("C18/total/render-panic/{}/{sh}", site(&loc, &msg)), format!("{sql}: {msg}")); }
